@@ -1,5 +1,6 @@
 // C53: mod_prison recordAndCheck over timed request histories vs model Prison.v.
-// input : [period, stay, threshold, [[key time] ...]]  in units of 30 min; times non-decreasing.
+// input : [period, stay, threshold, accessDictSize, prisonDictSize, [[key time] ...]]  (key -1 unsignable, -2 reload)
+//          in units of 30 min; times non-decreasing.
 // Periods are odd, stay and request times even, so that no comparison of the real code (start+period < now,
 // now < freeTime) ever falls on an exact boundary: the real time that passes while the history is replayed on the
 // virtual clock (far below one unit even on a stalled machine) cannot change a verdict.
@@ -16,19 +17,26 @@ const unit = int64(1800) * 1000 * 1000 * 1000 // 30 min in ns: real time spent r
 
 func impl(in hv.Val) hv.Val {
 	l := hv.AsList(in)
-	p := mod_prison.VerifNewPrison(hv.AsInt(l[0])*unit, hv.AsInt(l[1])*unit, int32(hv.AsInt(l[2])), 1000)
+	p := mod_prison.VerifNewPrison(hv.AsInt(l[0])*unit, hv.AsInt(l[1])*unit, int32(hv.AsInt(l[2])), int(hv.AsInt(l[3])),
+		int(hv.AsInt(l[4])))
 	out := hv.L{}
 	var now int64
 	first := true
-	for _, ov := range hv.AsList(l[3]) {
+	for _, ov := range hv.AsList(l[5]) {
 		o := hv.AsList(ov)
+		k := hv.AsInt(o[0])
+		if k == -2 { // reload with new dictionary sizes
+			p.Reload(int(hv.AsInt(o[1])))
+			out = append(out, hv.Bool(false))
+			continue
+		}
 		t := hv.AsInt(o[1])
 		if !first {
 			p.Advance((t - now) * unit)
 		}
 		first = false
 		now = t
-		out = append(out, hv.Bool(p.Request(int(hv.AsInt(o[0])))))
+		out = append(out, hv.Bool(p.Request(int(k))))
 	}
 	return out
 }
@@ -41,11 +49,77 @@ func gen(r *hv.Rng, i int, tier string) (string, hv.Val) {
 		th = int64(r.Range(-1, 0))
 	}
 	nkeys := r.Range(1, 4)
+	acap, pcap := int64(100), int64(100)
+	evict := r.Chance(3, 10)
+	if evict { // small dictionaries: LRU eviction of counters and prison records
+		nkeys = r.Range(2, 6)
+		acap = int64(r.Range(0, 3))
+		pcap = int64(r.Range(0, 3))
+		if r.Chance(1, 3) {
+			acap = 100
+		} else if r.Chance(1, 3) {
+			pcap = 100
+		}
+		if th > 2 {
+			th = int64(r.Range(0, 2))
+		}
+	} else if r.Chance(1, 5) { // exactly as many slots as keys: the no-eviction boundary
+		acap, pcap = int64(nkeys), int64(nkeys)
+	}
 	n := r.Range(1, 50)
 	class := "mixed"
-	mode := r.Intn(5)
+	mode := r.Intn(6)
 	ops := hv.L{}
 	t := int64(2 * r.Range(0, 5))
+	if mode == 5 {
+		// jail probe: fill one window of key 0 up to the threshold, exceed it, then probe around the free time
+		class = "jail-probe"
+		if th < 0 {
+			th = 0
+		}
+		t0 := t
+		add := func(k, tt int64) { ops = append(ops, hv.L{hv.Z(k), hv.Z(tt)}) }
+		last := t0
+		for j := int64(0); j <= th; j++ { // th+1 requests inside [t0, t0+period]
+			tt := t0
+			if j > 0 && period > 1 {
+				tt = t0 + 2*int64(r.Intn(int(period/2)+1))
+			}
+			if tt < last {
+				tt = last
+			}
+			last = tt
+			add(0, tt)
+			if r.Chance(1, 4) {
+				add(1, tt)
+			}
+		}
+		free := t0 + period + stay // odd: never hit exactly
+		probes := []int64{last, last + 2, free - 3, free - 1, free - 1, free + 1, free + 1, free + 3, free + 1 + period + 1}
+		if r.Chance(1, 2) {
+			// the jailed key keeps sending a burst of more than threshold requests right before the nominal release:
+			// they must be denied WITHOUT being counted, so the request just after the free time of the ORIGINAL
+			// jailing is admitted (a rule that counts them would extend the sentence)
+			class = "jail-burst"
+			probes = []int64{last}
+			for j := int64(0); j < th+2+int64(r.Intn(3)); j++ {
+				probes = append(probes, free-1)
+			}
+			probes = append(probes, free+1, free+1, free+3)
+		}
+		cur := last
+		for _, pt := range probes {
+			if pt < cur {
+				continue
+			}
+			cur = pt
+			add(0, pt)
+			if r.Chance(1, 5) {
+				add(1, pt)
+			}
+		}
+		return class, hv.L{hv.Z(period), hv.Z(stay), hv.Z(th), hv.Z(acap), hv.Z(pcap), ops}
+	}
 	for j := 0; j < n; j++ {
 		var dt int64
 		switch mode {
@@ -88,14 +162,22 @@ func gen(r *hv.Rng, i int, tier string) (string, hv.Val) {
 		if r.Chance(1, 40) {
 			k = -1
 		}
+		if r.Chance(1, 60) { // configuration reload: dictionaries are taken over, sizes can only grow
+			ops = append(ops, hv.L{hv.Z(-2), hv.Z(int64(pickI(r, 0, 1, 2, 4, 100)))})
+		}
 		ops = append(ops, hv.L{hv.Z(k), hv.Z(t)})
+	}
+	if evict {
+		class += "-evict"
 	}
 	if n <= 1 {
 		class = "triv-" + class
 	}
-	return class, hv.L{hv.Z(period), hv.Z(stay), hv.Z(th), ops}
+	return class, hv.L{hv.Z(period), hv.Z(stay), hv.Z(th), hv.Z(acap), hv.Z(pcap), ops}
 }
 
 func main() {
 	hv.Main(&hv.Spec{Prop: "C53", Gen: gen, Impl: impl, NQuick: 4000, NThorough: 200000})
 }
+
+func pickI(r *hv.Rng, xs ...int) int { return xs[r.Intn(len(xs))] }
